@@ -292,7 +292,7 @@ package lua
 //@ requires Frame(L) && L.stack != nil && $inv(L.stack) && L.G != nil && regsValid(L) && opA(inst) < nreg(L)
 //@ requires opB(inst) != 0 ==> lb(L) + opA(inst) + opB(inst) <= top(L)
 //@ requires opB(inst) == 0 ==> lb(L) + opA(inst) + 1 <= top(L)
-//@ requires fnsValid() && mtsValid(L) && framesValid(L)
+//@ requires fnsValid() && mtsValid(L) && framesValid(L) && tabsValid()
 //@ cut@"nvarargs := nargs - np" the vararg relocation of the inlined initCallFrame is not verified yet
 //@ modifies everything
 
@@ -314,7 +314,7 @@ package lua
 // OP_TAILCALL: thin contract (no implicit Go panic; inlined closeUpvalues/initCallFrame/CopyRange copies satisfy
 // the contracts of their source functions).
 //@ func jumpTable[OP_TAILCALL] [C02 C03 C07 C12]
-//@ requires Frame(L) && L.stack != nil && $inv(L.stack) && L.G != nil && regsValid(L) && opA(inst) < nreg(L) && fnsValid() && mtsValid(L) && uvsValid(L) && framesValid(L)
+//@ requires Frame(L) && L.stack != nil && $inv(L.stack) && L.G != nil && regsValid(L) && opA(inst) < nreg(L) && fnsValid() && mtsValid(L) && uvsValid(L) && framesValid(L) && tabsValid()
 //@ requires opB(inst) != 0 ==> lb(L) + opA(inst) + opB(inst) <= top(L)
 //@ requires opB(inst) == 0 ==> lb(L) + opA(inst) + 1 <= top(L)
 //@ requires 0 <= L.currentFrame.ReturnBase && L.currentFrame.ReturnBase <= L.currentFrame.Base && L.currentFrame.Base < lb(L) && L.currentFrame.NRet >= -1
@@ -365,6 +365,8 @@ package lua
 //@ requires opB(inst) == 0 ==> lb(L) + opA(inst) <= top(L)
 //@ requires 0 <= L.currentFrame.ReturnBase && L.currentFrame.ReturnBase <= lb(L) + opA(inst) && L.currentFrame.NRet >= -1
 //@ requires forall i int :: 0 <= i && i < $sp(L.stack) ==> $frame(L.stack, i) != nil && $frame(L.stack, i).Fn != nil
+//@ requires L.G != nil && L.currentFrame == $frame(L.stack, $sp(L.stack) - 1) && L.currentFrame.ReturnBase <= L.currentFrame.Base && L.currentFrame.Base < lb(L) && lb(L) <= top(L)
+//@ requires L.Parent != nil ==> Inv_api(L.Parent) && L.Parent != L && L.Parent.reg != L.reg && arrid(L.Parent.reg.array) != arrid(L.reg.array) && L.Parent.currentFrame != L.currentFrame
 //@ modifies everything
 
 // ---------------------------------------------------------------------------
@@ -433,30 +435,12 @@ package lua
 //@ define rkOK(L *LState, i int) bool = ite(i >= 256, i - 256 < len(konst(L)), i < nreg(L))
 //@ define rksOK(L *LState, i int) bool = ite(i >= 256, i - 256 < len(sconst(L)), i < nreg(L) && isStr(R(L, i)))
 // what a re-entrant call leaves alone (assumed): the frame, its header, the registry object; prototypes are immutable (C13)
-//@ define Disc(ls *LState) bool = ls.currentFrame == old(ls.currentFrame) && ls.reg == old(ls.reg) && unchanged(ls.currentFrame) && (old(Frame(ls)) ==> Frame(ls)) && ls.currentFrame.Fn.Proto == old(ls.currentFrame.Fn.Proto) && nreg(ls) == old(nreg(ls)) && ls.stack == old(ls.stack) && ls.G == old(ls.G)
-
-//@ trusted (*LState).getField [C01 C04 C07 C10]
-//@ assume getField/getFieldString/setField/setFieldString may run metamethods; call discipline assumed; handler selection is decided under C04
-//@ logged
-//@ ensures  Disc(ls) && result != nil
-//@ modifies everything
-//@ trusted (*LState).getFieldString [C01 C04 C07 C10]
-//@ logged
-//@ ensures  Disc(ls) && result != nil
-//@ modifies everything
-//@ trusted (*LState).setField [C01 C04 C07 C10]
-//@ logged
-//@ ensures  Disc(ls)
-//@ modifies everything
-//@ trusted (*LState).setFieldString [C01 C04 C07 C10]
-//@ logged
-//@ ensures  Disc(ls)
-//@ modifies everything
+//@ define Disc(ls *LState) bool = ls.currentFrame == old(ls.currentFrame) && ls.reg == old(ls.reg) && ls.stack == old(ls.stack) && ls.G == old(ls.G) && (ls.currentFrame != nil ==> unchanged(ls.currentFrame) && (old(Frame(ls)) ==> Frame(ls) && ls.currentFrame.Fn.Proto == old(ls.currentFrame.Fn.Proto) && nreg(ls) == old(nreg(ls))))
 
 //@ define offs(L *LState) bool = offset(sconst(L)) == 0
 
 //@ func jumpTable[OP_GETTABLE] [C01 C04 C07]
-//@ requires Frame(L) && opA(inst) < nreg(L) && opB(inst) < nreg(L) && rkOK(L, opC(inst))
+//@ requires Frame(L) && opA(inst) < nreg(L) && opB(inst) < nreg(L) && rkOK(L, opC(inst)) && IdxOK(L) && regsValid(L) && lb(L) + nreg(L) <= top(L) && (forall k int :: 0 <= k && k < len(konst(L)) ==> valOK(konst(L)[k]))
 //@ ensures  result == 0 && Frame(L) && pc(L) == old(pc(L)) && ncalls() == old(ncalls()) + 1 && callfn(old(ncalls())) == fnid("(*LState).getField")
 //@ ensures  "operands": callargLV(old(ncalls()), 1) == old(R(L, opB(inst))) && callargLV(old(ncalls()), 2) == old(RKv(L, opC(inst)))
 //@ ensures  "result": R(L, opA(inst)) == callresLV(old(ncalls()), 0)
